@@ -9,7 +9,7 @@ import vlib
 from vlib import Check, ModelError
 
 SPEC = os.path.join(vlib.ROOT, "spec", "Geom")
-P_INV = ["P_NoError", "P_Volume", "P_BBox", "P_Area", "P_Centroid", "P_Orientation", "P_LongestAxis"]
+P_INV = ["P_NoError", "P_Volume", "P_BBox", "P_Area", "P_Centroid", "P_Orientation", "P_LongestAxis", "P_History"]
 NF = {"tetra": 4, "octa": 8, "bipyr": 6}
 
 
